@@ -18,10 +18,10 @@ def run(tier):
     for r in res:
         if not pc.is_lr1(r) or r["g"]["err"]:
             continue
-        if r["validate"].startswith("safe=1"):
+        if r["validate"].startswith("safe=1 complete=1"):
             validated += 1
         else:
-            ck.violation("the verified validator (Gocc.safe/safeEnds, theorem C02_accept_sound) rejects the tables gocc generated: %s" % r["validate"],
+            ck.violation("the verified validators (Gocc.safe/safeEnds/complete; theorems C02_accept_sound, C02_sentence_accepted) reject the tables gocc generated: %s" % r["validate"],
                          {"bnf": r["text"], "validate": r["validate"], "tables": r["impl_lrtab"], "unchecked": "per-grammar obligation safe G T cert = true"},
                          found_input=False)
         stats["lr1"] += 1
